@@ -227,6 +227,9 @@ func (sta *State) UsedRandomCleaner() {
 }
 
 func (sta *State) registerRandom(r [32]byte) bool {
+	// X25519 ignores the top bit of the peer's public key: a copy with that bit flipped yields
+	// the same shared secret and still authenticates, so it must map to the same cache entry
+	r[31] &= 0x7f
 	sta.usedRandomM.Lock()
 	_, used := sta.UsedRandom[r]
 	sta.UsedRandom[r] = sta.WorldState.Now().Unix()
